@@ -65,7 +65,7 @@ def run_rules(ctx, res):
         if not ok:
             res.violate(LEX, "reference-self-check", "", "the checker's own reference table is not layout-neutral (checker defect)")
     # ---- pos / src on MIR
-    from ..mir import Mir, Exprs, canon, parse_at
+    from ..mir import Mir, Exprs, canon, parse_at, strip_transparent
     mir = Mir(ctx["facts"]["mir"])
     gens = [f for f in mir.fns.values() if f.pub and f.name == "generate" and f.kind == "Fn"]
     if len(gens) != 1:
@@ -205,26 +205,92 @@ def run_rules(ctx, res):
             roles_found.add("emitter")
     if roles_found != {"tokenizer", "emitter"}:
         res.violate(SRC, "src-roles", g.where, "generate must hand its own `src` to the tokenizer and to the emitter (for the digest); found direct uses by %s — the text is transformed before being tokenised or hashed" % sorted(roles_found))
-    # the emitter's grammar-source field is read only by the digest
-    own = [p for p in mir.adts if p.endswith("::SrcBuilder")]
-    if len(own) == 1:
-        n_r = 0
-        for fn in mir.fns.values():
-            if fn.derived:
+    # inside the emitter: the raw text (parameter, or a field that received it, through value-preserving
+    # conversions) may only be forwarded to a local callee, stored into a field, or handed to sha256::digest
+    from ..mir import TEXT_CONV
+
+    def is_conv(path):
+        from ..mir import TRANSPARENT_CALLS, is_clone_path
+        return path in TRANSPARENT_CALLS or path in TEXT_CONV or is_clone_path(path)
+
+    work = []
+    for (c, ai) in uses:
+        tgt = mir.fns.get(c.rkey) if c.local else None
+        if tgt is not None and tgt.output and tgt.output["s"].endswith("RustSrc"):
+            work.append((tgt, ai + 1))
+    seen_p = set()
+    src_fields = set()
+    n_fw = 0
+
+    def scan(fn, is_root, what):
+        """every use of a raw-text value in fn: returns forwarded (callee, param index) pairs"""
+        nonlocal n_fw
+        fex = Exprs(fn)
+        out = []
+
+        def raw(op):
+            if op["k"] not in ("copy", "move"):
+                return False
+            e = strip_transparent(fex.operand(op), extra=TEXT_CONV)
+            return is_root(e)
+
+        short = fn.path.rsplit("::", 1)[-1]
+        for c in fn.calls():
+            for ai, a_ in enumerate(c.args):
+                if not raw(a_):
+                    continue
+                n_fw += 1
+                rp = c.rpath or c.path or "?"
+                if c.local and c.rkey in mir.fns:
+                    out.append((mir.fns[c.rkey], ai + 1))
+                    res.inst(SRC, "emitter-forward|%s->%s" % (short, rp.rsplit("::", 1)[-1]), c.where, True, what)
+                elif rp.startswith("sha256::digest"):
+                    res.inst(SRC, "emitter-digest|%s" % short, c.where, True, what)
+                elif is_conv(rp) or is_conv(c.path or ""):
+                    res.inst(SRC, "emitter-conversion|%s|%s" % (short, rp.rsplit("::", 1)[-1]), c.where, False, "value-preserving; its result is followed as the raw text")
+                else:
+                    res.violate(SRC, "emitter-src-use|%s|%s" % (short, rp.rsplit("::", 1)[-1]), c.where, "the emitter hands the raw grammar text to `%s`: layout (comments, whitespace) can reach the emitted code" % rp)
+        for b_ in fn.blocks:
+            if b_["cleanup"]:
                 continue
-            fex = None
-            for c in fn.calls():
-                for a in c.args:
-                    if a["k"] in ("copy", "move"):
-                        fex = fex or Exprs(fn)
-                        e = canon(fex.operand(a))
-                        if re.match(r"^param1\.grammar_src$", e):
-                            n_r += 1
-                            okr = (c.rpath or "").startswith("sha256::digest")
-                            res.inst(SRC, "grammar-src-read|%s" % fn.path, c.where, True, c.rpath)
-                            if not okr:
-                                res.violate(SRC, "grammar-src-read|%s|%s" % (fn.path, c.rpath), c.where, "the emitter reads the raw grammar text in `%s`: layout can reach the emitted code" % c.rpath)
-        res.floor("reads of the emitter's grammar-source field", n_r, 1)
+            for s_ in b_["stmts"]:
+                if s_["k"] == "assign" and s_["rv"]["k"] == "agg" and s_["rv"].get("ak") == "adt":
+                    for fi, o in enumerate(s_["rv"]["ops"]):
+                        if raw(o):
+                            src_fields.add((s_["rv"]["adt"], s_["rv"]["fields"][fi]))
+                if s_["k"] == "assign" and s_["rv"]["k"] == "agg" and s_["rv"].get("ak") == "closure":
+                    for o in s_["rv"]["ops"]:
+                        if raw(o):
+                            res.violate(SRC, "emitter-src-captured|%s" % short, fn.where, "the raw grammar text is captured by a closure in the emitter (%s)" % fn.path)
+                if s_["k"] == "assign" and s_["rv"]["k"] in ("bin", "len", "discr"):
+                    ops = [s_["rv"].get(x) for x in ("a", "b", "op_", "place") if isinstance(s_["rv"].get(x), dict)]
+                    for o in ops:
+                        if "k" in o and raw(o):
+                            f_, l_ = parse_at(s_["span"]["at"])
+                            res.violate(SRC, "emitter-src-op|%s" % short, "%s:%d" % (f_, l_), "the raw grammar text enters a `%s` in the emitter" % s_["rv"]["k"])
+        return out
+
+    while work:
+        fn, pi = work.pop()
+        if (fn.key, pi) in seen_p:
+            continue
+        seen_p.add((fn.key, pi))
+        work.extend(scan(fn, lambda e, pi=pi: e.k == "param" and e.a[0] == pi, "parameter %d" % pi))
+    res.floor("uses of the raw text inside the emitter followed", n_fw, 1)
+    res.floor("emitter fields that receive the raw text", len(src_fields), 1)
+    n0 = n_fw
+    for (adt, fld) in sorted(src_fields):
+        for fn in mir.fns.values():
+            if fn.derived or not (fn.impl and fn.impl["self_ty"]["head"] == adt):
+                continue
+            more = scan(fn, lambda e, fld=fld: e.k == "field" and e.a[1] == fld and strip_transparent(e.a[0]).k == "param" and strip_transparent(e.a[0]).a[0] == 1, "field %s" % fld)
+            while more:
+                f2, pi = more.pop()
+                if (f2.key, pi) in seen_p:
+                    continue
+                seen_p.add((f2.key, pi))
+                more.extend(scan(f2, lambda e, pi=pi: e.k == "param" and e.a[0] == pi, "parameter %d" % pi))
+    res.floor("reads of the emitter's grammar-source field", n_fw - n0, 1)
 
 
 def check(ctx):
